@@ -606,7 +606,14 @@ func checkProgram(rep *lib.Report, name, dir, module string, files map[string]st
 			what := fmt.Sprintf("real report differs from MayPanic.report on the dumped facts (exclude=%v)\nreal : %s\nmodel: %s", excl, canon, model)
 			content := what + "\n" + P.describe(canon, model) + "\n" + sourceOf(dir, files)
 			// is something the property demands missing from the real report?
-			demanded := P.demandedButMissing(or, pairs)
+			var demanded []demand
+			for _, d := range P.demandedButMissing(or, pairs) {
+				// launch forms the code does not handle at all are the known findings, reported when a
+				// native run confirms them; here: a handled form whose demanded function is missing
+				if d.form == "fn" || d.form == "closure" {
+					demanded = append(demanded, d)
+				}
+			}
 			if len(demanded) > 0 {
 				rep.Fail("report-misses:"+demanded[0].form, "real report misses a launched, non-excluded, non-recovering function: "+demanded[0].text, []byte(content), false)
 			} else {
